@@ -41,6 +41,10 @@ def pool(rng, n):
     return out + derived
 
 
+def fresh_copy_of(x):
+    return FmtStr(*[Chunk(c.s, dict(c.atts)) for c in x.chunks])
+
+
 def bounded(check, tier, seed):
     from curtsies import fmtfuncs
     rng = random.Random(seed + 11)
@@ -48,6 +52,15 @@ def bounded(check, tier, seed):
     P = pool(rng, n)
     from bounded.derived import derived_values
     P = P + derived_values(seed + 4, n // 4)        # values at the end of chains of operations, partly rendered on the way
+    n_repr = len(P)
+    # the same terminal string from texts of DIFFERENT LENGTHS: a run whose text holds escape sequences verbatim (what str + FmtStr,
+    # copy_with_new_str(str(g)) and FmtStr(Chunk(str(g))) build) next to the value that displays the same through formatting
+    raw = []
+    for g in [P[k] for k in range(0, min(len(P), 120), 3)] + P[n - 0:n + 11]:
+        t = str(fresh_copy_of(g))
+        if "\x1b" in t:
+            raw += [FmtStr(Chunk(t)), "" + FmtStr(Chunk(t[:3])) + t[3:], fmtstr("q").copy_with_new_str(t)]
+    P = P + raw
     s = Suite(check, "C19.pairs", f"all ordered pairs of a {len(P)}-value pool (random runs over 9 texts x 7 attribute sets, plus same-display/"
               "different-boundary, same-text/different-formatting and empty-run values): ==, !=, hash, set/dict membership against "
               "'same terminal string'; each value against its own terminal string and text as plain str, both operand orders",
@@ -90,7 +103,7 @@ def bounded(check, tier, seed):
     ns = {k: getattr(fmtfuncs, k) for k in dir(fmtfuncs) if not k.startswith("_")}
     s = Suite(check, "C19.repr", "eval(repr(f)) in the fmtfuncs namespace compared per character, for every pool value with at least one run",
               bound=f"pool {len(P)}", exhaustive=False)
-    for f in P:
+    for f in P[:n_repr]:
         if not f.chunks:
             continue
         s.case(repr(f), sample=repr(f))
